@@ -361,6 +361,13 @@ int32_t tls13GenerateKeyForGroup(ssl_t *ssl, uint16_t namedGroup)
             PS_TRUE);
 # endif
 
+    if (namedGroup == 0)
+    {
+        /* would match the first unused slot of the array below */
+        psTraceInfo("Unsupported group: 0\n");
+        goto out_internal_error;
+    }
+
     /* Find the correct spot. */
     for (i = 0; i < TLS_1_3_MAX_GROUPS; i++)
     {
@@ -1060,6 +1067,12 @@ psBool_t tls13WeSupportGroup(ssl_t *ssl,
 {
     psSize_t i;
 
+    if (namedGroup == 0)
+    {
+        /* 0 marks the unused slots of the array (and is
+           unallocated_RESERVED in the NamedGroup registry) */
+        return PS_FALSE;
+    }
     for (i = 0; i < TLS_1_3_MAX_GROUPS; i++)
     {
         if (ssl->tls13SupportedGroups[i] == namedGroup)
